@@ -190,8 +190,10 @@ Inductive op :=
 | OpStore                     (* store.to_json_string(store.config()) : members in order *)
 | OpMemberTrait (i : nat)     (* ToJson::to_json_string(member, config of the store) *)
 | OpMemberPlain (i : nat)     (* the inherent member.to_json_string(): no mode write *)
-| OpMemberForeign (i : nat).  (* ToJson::to_json_string(member, &Config::default()): same code path as
+| OpMemberForeign (i : nat)   (* ToJson::to_json_string(member, &Config::default()): same code path as
                                  OpMemberTrait now that the mode does not live in the Config *)
+| OpMemberThenStore (i : nat). (* two calls on one thread: ToJson::to_json_string(member, store config),
+                                 then store.to_json_string(): the mode must have been set back *)
 
 Definition kind_of (mem : list fkind) (i : nat) : fkind := nth i mem NoFile.
 
@@ -202,6 +204,9 @@ Definition prog (fuel : nat) (mem : list fkind) (o : op) : list cmd :=
   | OpMemberTrait i => Yield :: SetMode NoInc :: ser_member fuel None i (kind_of mem i) ++ [SetMode Allow]
   | OpMemberPlain i => Yield :: ser_member fuel None i (kind_of mem i)
   | OpMemberForeign i => Yield :: SetMode NoInc :: ser_member fuel None i (kind_of mem i) ++ [SetMode Allow]
+  | OpMemberThenStore i =>
+      (Yield :: SetMode NoInc :: ser_member fuel None i (kind_of mem i) ++ [SetMode Allow])
+      ++ ser_members fuel 0 mem
   end.
 
 Definition model_fuel : nat := 6.
